@@ -237,7 +237,8 @@ list or PERMITTED by a list satisfying `G`. -/
 theorem C06_rtr_safe (G : Acl → Prop) (hG : ∀ a q, G a → G (isPermitted a q).2.2)
     (hI : ∀ s, I n s ↔ (s.kind = .router ∧ s.ifaces = ifs ∧ G (s.acls .router)))
     (hn : side n = true) (hc : RtrClosed sys side Cl n ifs hops)
-    (hF : ∀ p i f, SideFacing sys side n p → Cl n p f → ifs[p]? = some i → f.dstMac = i.mac → ownIpL ifs f.pkt.dstIp = false →
+    (hF : ∀ p i f, SideFacing sys side n p → Cl n p f → ifs[p]? = some i → f.dstMac = i.mac → f.dstMac ≠ bcastMac →
+      ownIpL ifs f.pkt.dstIp = false →
       (subjectToAcl f = some false ∨ ∃ a, G a ∧ (isPermitted a f.pkt).1 = true) → FwdOK sys Cl n ifs f)
     (x : RtrOpaque W) (s : Node W) (p : Nat) (f : Frame) (hs : I n s) (hsf : SideFacing sys side n p) (hcl : Cl n p f) :
     SafeAct sys side (FromSideC sys side Cl) I n (nodeRx (rtrStd hops x) s p f) := by
@@ -266,7 +267,7 @@ theorem C06_rtr_safe (G : Acl → Prop) (hG : ∀ a q, G a → G (isPermitted a 
           refine rtr_permitted_safe sys side Cl I n ifs hops hn hsw hifs hc x p f _ hsf hcl ?_ s hs
           intro hb hown
           have hm : f.dstMac = i.mac := by rcases hmac with h | h; exact h; exact absurd h hb
-          exact hF p i f hsf hcl hi' hm hown (Or.inl hsub)
+          exact hF p i f hsf hcl hi' hm hb hown (Or.inl hsub)
         · split
           · rename_i hd
             simp only [guardSends]
@@ -282,16 +283,10 @@ theorem C06_rtr_safe (G : Acl → Prop) (hG : ∀ a q, G a → G (isPermitted a 
             refine rtr_permitted_safe sys side Cl I n ifs hops hn hsw hifs hc x p f _ hsf hcl ?_ _ hs'
             intro hb hown
             have hm : f.dstMac = i.mac := by rcases hmac with h | h; exact h; exact absurd h hb
-            exact hF p i f hsf hcl hi' hm hown (Or.inr ⟨_, hg, hperm⟩)
+            exact hF p i f hsf hcl hi' hm hb hown (Or.inr ⟨_, hg, hperm⟩)
     · exact SafeAct.done hs
 
 /-! ### a firewall -/
-
-/-- `dst in self.dmz_port.ip_network` over a fixed interface list -/
-def inDmzL (ifs : List Iface) (a : Ip) : Bool :=
-  match ifs[dmzPort]? with
-  | some i => i.inNet a
-  | none => false
 
 omit [DecidableEq N] in
 theorem inDmzNet_eq (s2 : Node W) (ifs : List Iface) (f : Frame) (y : Nat) (h : s2.ifaces = ifs) :
@@ -301,8 +296,8 @@ theorem inDmzNet_eq (s2 : Node W) (ifs : List Iface) (f : Frame) (y : Nat) (h : 
 /-- the second entry point the code can select for frame `f` arriving at first entry point `e` -/
 def SelOK (ifs : List Iface) (e : FwEntry) (f : Frame) (e2 : FwEntry) : Prop :=
   match e with
-  | .extIn => e2 = (if inDmzL ifs f.pkt.dstIp then .dmzIn else .intIn)
-  | .intOut => e2 = (if inDmzL ifs f.pkt.dstIp then .dmzIn else .extOut)
+  | .extIn => e2 = selE ifs .extIn f.pkt.dstIp
+  | .intOut => e2 = selE ifs .intOut f.pkt.dstIp
   | .dmzOut => e2 = .extOut ∨ e2 = .intIn
   | _ => False
 
@@ -319,7 +314,7 @@ theorem C06_fw_safe (G : (AclId → Acl) → Prop)
     (hI : ∀ s, I n s ↔ (s.kind = .firewall ∧ s.ifaces = ifs ∧ G s.acls))
     (hn : side n = true) (hc : RtrClosed sys side Cl n ifs hops)
     (hF : ∀ p i f e, SideFacing sys side n p → Cl n p f → ifs[p]? = some i → portEntry p = some e → f.dstMac = i.mac →
-      ownIpL ifs f.pkt.dstIp = false → FwPassed G ifs e f → FwdOK sys Cl n ifs f)
+      f.dstMac ≠ bcastMac → ownIpL ifs f.pkt.dstIp = false → FwPassed G ifs e f → FwdOK sys Cl n ifs f)
     (x : RtrOpaque W) (s : Node W) (p : Nat) (f : Frame) (hs : I n s) (hsf : SideFacing sys side n p) (hcl : Cl n p f) :
     SafeAct sys side (FromSideC sys side Cl) I n (nodeRx (rtrStd hops x) s p f) := by
   have hsw : ∀ s x, I n s → I n ({ s with sw := x } : Node W) := fun s x h => (hI _).mpr ((hI s).mp h)
@@ -372,7 +367,7 @@ theorem C06_fw_safe (G : (AclId → Acl) → Prop)
             refine rtr_process_safe sys side Cl I n ifs hops hn hsw hifs hc x p f _ hsf hcl ?_ _ (hbump s3 _ _ hs3)
             intro hb hown
             have hm : f.dstMac = i.mac := by rcases hmac with h | h; exact h; exact absurd h hb
-            exact hF p i f e hsf hcl hi' hpe hm hown ⟨a1, s3.acls, e2, hg1, hp1, ((hI s3).mp hs3).2.2, hp2, hsel⟩
+            exact hF p i f e hsf hcl hi' hpe hm hb hown ⟨a1, s3.acls, e2, hg1, hp1, ((hI s3).mp hs3).2.2, hp2, hsel⟩
         simp only [fwFirst]
         split
         · simp only [guardSends]; exact SafeAct.done (hbump s _ _ hs)
@@ -394,18 +389,18 @@ theorem C06_fw_safe (G : (AclId → Acl) → Prop)
                 fun s2 h2 => inDmzNet_eq s2 ifs f _ h2
               split
               · rename_i hz'
-                exact hfinal .dmzIn _ hs2 h1 (by simp [SelOK, ← hz _ hif2, hz'])
+                exact hfinal .dmzIn _ hs2 h1 (by simp [SelOK, selE, ← hz _ hif2, hz'])
               · rename_i hz'
-                exact hfinal .intIn _ hs2 h1 (by simp [SelOK, ← hz _ hif2, hz'])
+                exact hfinal .intIn _ hs2 h1 (by simp [SelOK, selE, ← hz _ hif2, hz'])
             | intOut =>
               simp only [fwNext]
               have hz : ∀ s2 : Node W, s2.ifaces = ifs → inDmzNet s2 ({ f with ttl := f.ttl - 1 } : Frame) = inDmzL ifs f.pkt.dstIp :=
                 fun s2 h2 => inDmzNet_eq s2 ifs f _ h2
               split
               · rename_i hz'
-                exact hfinal .dmzIn _ hs2 h1 (by simp [SelOK, ← hz _ hif2, hz'])
+                exact hfinal .dmzIn _ hs2 h1 (by simp [SelOK, selE, ← hz _ hif2, hz'])
               · rename_i hz'
-                exact hfinal .extOut _ hs2 h1 (by simp [SelOK, ← hz _ hif2, hz'])
+                exact hfinal .extOut _ hs2 h1 (by simp [SelOK, selE, ← hz _ hif2, hz'])
             | dmzOut =>
               simp only [fwNext]
               split
@@ -428,5 +423,537 @@ theorem C06_fw_safe (G : (AclId → Acl) → Prop)
     · exact SafeAct.done hs
 
 end rtr
+
+/-! ## 2. the destination scan, and a protected host is deaf to frames that are not addressed to it -/
+
+/-- packets addressed to one of the protected addresses -/
+def ForB (ba : List Ip) (pkt : Packet) : Prop := ba.contains pkt.dstIp = true
+
+theorem dstCovers_sound (r : Rule) (a : Ip) (p : Packet) (h : dstCovers r a = true) (hp : p.dstIp = a) : r.hits? p = true := by
+  simp only [dstCovers, Bool.and_eq_true, Option.isNone_iff_eq_none] at h
+  obtain ⟨⟨⟨⟨h1, h2⟩, h3⟩, h4⟩, h5⟩ := h
+  simp [Rule.hits?, protoMatches, portMatches, h1, h3, h4, hp, h5]
+  simp [addrMatches, h2]
+
+theorem denyDstScan_sound (a : Ip) (p : Packet) (hp : p.dstIp = a) (imp : Action) :
+    ∀ (rules : List (Option Rule)) (off : Nat), denyDstScan a rules imp = true →
+      match firstMatch p rules off with
+      | some (_, r) => r.action = .deny
+      | none => imp = .deny := by
+  intro rules
+  induction rules with
+  | nil => intro off h; simpa [denyDstScan, firstMatch] using h
+  | cons x rest ih =>
+    intro off h
+    cases x with
+    | none => simpa [firstMatch] using ih (off + 1) (by simpa [denyDstScan] using h)
+    | some r =>
+      simp only [denyDstScan, Bool.and_eq_true, Bool.or_eq_true, beq_iff_eq] at h
+      simp only [firstMatch]
+      by_cases hm : r.hits? p = true
+      · simp only [hm, if_true]; exact h.1
+      · simp only [hm, Bool.false_eq_true, if_false]
+        rcases h.2 with hcov | hrest
+        · exact absurd (dstCovers_sound r a p hcov hp) hm
+        · exact ih (off + 1) hrest
+
+/-- **Soundness of the destination scan**: a list that passes `denyDstCheck ba` denies every packet addressed to an address
+of `ba`, whatever its source, protocol and ports, and whatever else the list holds behind the covering DENY rules. -/
+theorem C06_denyDstCheck_sound (ba : List Ip) (a : Acl) (h : denyDstCheck ba a = true) : DeniesClass (ForB ba) a := by
+  intro p hp
+  have hmem : p.dstIp ∈ ba := by simpa [ForB] using hp
+  have hs := List.all_eq_true.mp h _ hmem
+  have := denyDstScan_sound p.dstIp p rfl a.implicit a.rules 0 hs
+  unfold isPermitted
+  cases hf : firstMatch p a.rules 0 with
+  | none => simp only [hf] at this; simp [this]
+  | some ir => obtain ⟨i, r⟩ := ir; simp only [hf] at this; simp [this]
+
+/-- **A host ignores every frame that is not addressed to it at layer 3**: when the destination address is none of the
+host's interface addresses and not the arrival subnet's broadcast address, the NIC drops the frame before the node sees
+it — the host's state is untouched and nothing is emitted, whatever its software and power state. -/
+theorem C06_host_deaf (soft : Soft W) (s : Node W) (p : Nat) (f : Frame) (hk : s.kind = .host)
+    (hno : ∀ i ∈ s.ifaces, f.pkt.dstIp ≠ i.ip ∧ f.pkt.dstIp ≠ i.bcastAddr) : nodeRx soft s p f = .done s := by
+  unfold nodeRx
+  cases hi : s.ifaces[p]? with
+  | none => rfl
+  | some i =>
+    have hmem := List.mem_of_getElem? hi
+    obtain ⟨h1, h2⟩ := hno i hmem
+    have hany : s.ifaces.any (fun j => j.ip == f.pkt.dstIp) = false := by
+      rw [List.any_eq_false]
+      intro j hj
+      have := (hno j hj).1
+      simp only [beq_iff_eq]
+      exact fun h => this h.symm
+    simp only [ifaceRx, hk]
+    cases i.enabled
+    · rfl
+    · by_cases ht : f.ttl - 1 < 1
+      · simp [ht]
+      · simp [ht, h1, h2, hany]
+
+/-! ## 3. the reachability-style theorem: frames addressed to a protected host never reach it -/
+
+section reach
+variable (t : TopoB)
+
+/-- the ARP payload of a genuine ARP packet is well-formed: a request is a broadcast, its sender is bound to the source MAC as
+far as router interfaces go and is not a protected address; a reply is addressed to a consistent (MAC, address) pair -/
+def ArpOKB (f : Frame) : Prop :=
+  subjectToAcl f = some false →
+    (f.arpReq = true → f.dstMac = bcastMac ∧ bindOK t.rtrIfs f.srcMac f.arpSnd = true ∧ t.ba.contains f.arpSnd = false) ∧
+    (f.arpReq = false → bindOK t.rtrIfs f.dstMac f.pkt.dstIp = true)
+
+/-- the frames that may arrive at node `n`: nobody uses a protected address as source; ARP payloads are well-formed; and
+INSIDE the protected zone no frame is addressed to a protected host.  Nothing else is asked: any protocol, any destination
+outside `ba`, any amount of traffic between attacker-side nodes and through the guards. -/
+def ClB (n : Nat) (_ : Nat) (f : Frame) : Prop :=
+  t.ba.contains f.pkt.srcIp = false ∧ ArpOKB t f ∧ (t.inB n = true → t.ba.contains f.pkt.dstIp = false)
+
+def needGuard (n : Nat) : Bool := !(t.inB n || t.outside n)
+
+/-- a firewall's lists guard the zone (the Prop behind `fwGuards`); `d e` says for each first entry point whether it is its own
+list that denies the protected addresses (fixed once, from the certified state) or the list of the second entry point -/
+def FwGuardP (d : FwEntry → Bool) (ifs : List Iface) (acls : AclId → Acl) : Prop :=
+  ∀ e, (e = FwEntry.extIn ∨ e = FwEntry.intOut ∨ e = FwEntry.dmzOut) →
+    if d e then DeniesClass (ForB t.ba) (acls (entryAcl e))
+    else (match e with
+       | .dmzOut => DeniesClass (ForB t.ba) (acls .extOut) ∧ DeniesClass (ForB t.ba) (acls .intIn)
+       | _ => ∀ a, t.ba.contains a = true → DeniesClass (ForB [a]) (acls (entryAcl (selE ifs e a))))
+
+/-- the decision function of a certified firewall state -/
+def fwD (s : Node W) (e : FwEntry) : Bool := denyDstCheck t.ba (s.acls (entryAcl e))
+
+variable (apps : Nat → HostApp W) (tbls : Nat → SwitchTbl W) (rtrs : Nat → RtrOpaque W) (bases : Nat → Soft W)
+  (hFree : Nat → Node W → Nat → Frame → Script W)
+
+def softB (n : Nat) : Soft W :=
+  match t.role n with
+  | .host => hostStd (apps n)
+  | .switch => switchStd (tbls n)
+  | .rtr => rtrStd t.hops (rtrs n)
+  | .fw => rtrStd t.hops (rtrs n)
+  | _ => bases n
+
+/-- the system a B-topology denotes: attacker-side `free` nodes run arbitrary handlers, every other node is a PrimAITE
+element — hosts behind their session manager, switches, routers / firewalls with `rtrStd`, protected hosts with ANY software -/
+def sysB : Sys Nat Nat Frame (Node W) :=
+  { handler := fun n => match t.role n with
+      | .free => hFree n
+      | _ => nodeRx (softB t apps tbls rtrs bases n),
+    wire := t.wire }
+
+def invB (σ : St Nat (Node W)) (n : Nat) (s : Node W) : Prop :=
+  match t.role n with
+  | .free => True
+  | .host => s.kind = .host ∧ s.ifaces = (σ n).ifaces
+  | .switch => s.kind = .switch
+  | .rtr => s.kind = .router ∧ s.ifaces = (σ n).ifaces ∧ (needGuard t n = true → DeniesClass (ForB t.ba) (s.acls .router))
+  | .fw => s.kind = .firewall ∧ s.ifaces = (σ n).ifaces ∧ (needGuard t n = true → FwGuardP t (fwD t (σ n)) (σ n).ifaces s.acls)
+  | .deaf => s = σ n
+
+theorem wire_memB (n q m r : Nat) (h : t.wire n q = some (m, r)) : ((n, q), (m, r)) ∈ t.wires := by
+  unfold TopoB.wire at h
+  cases hf : t.wires.find? (fun w => w.1.1 == n && w.1.2 == q) with
+  | none => simp [hf] at h
+  | some w =>
+    simp only [hf, Option.map_some, Option.some.injEq] at h
+    have hp := List.find?_some hf
+    have hmem := List.mem_of_find?_eq_some hf
+    simp only [Bool.and_eq_true, beq_iff_eq] at hp
+    obtain ⟨⟨a, b⟩, c⟩ := w
+    simp only at hp h
+    obtain ⟨rfl, rfl⟩ := hp
+    subst h
+    exact hmem
+
+theorem outside_wire (n q m r : Nat) (ho : t.outside n = true) (hw : t.wire n q = some (m, r)) : t.inB m = false := by
+  have := List.all_eq_true.mp ho _ (wire_memB t n q m r hw)
+  simpa using this
+
+/-- a node that is neither inside the zone nor a guard has no wire into the zone; a guard's frames into the zone are what the
+closure lemmas are about -/
+theorem intoB_cases (n q m r : Nat) (hw : t.wire n q = some (m, r)) (hm : t.inB m = true) :
+    t.inB n = true ∨ needGuard t n = true := by
+  cases hb : t.inB n
+  · right
+    cases ho : t.outside n
+    · simp [needGuard, hb, ho]
+    · have := outside_wire t n q m r ho hw; rw [hm] at this; cases this
+  · exact Or.inl rfl
+
+theorem certifyB_parts (σ : St Nat (Node W)) (hc : certifyB t σ = true) :
+    (∀ h, t.hops.contains h = true → t.ba.contains h = false) ∧ ∀ n, n < t.roles.length → certifyNodeB t n (σ n) = true := by
+  simp only [certifyB, Bool.and_eq_true] at hc
+  refine ⟨?_, fun n hn => List.all_eq_true.mp hc.2 n (List.mem_range.mpr hn)⟩
+  intro h hh
+  have hmem : h ∈ t.hops := by simpa using hh
+  have := List.all_eq_true.mp hc.1 h hmem
+  simpa using this
+
+theorem role_lt (n : Nat) (h : t.role n ≠ .free) : n < t.roles.length := by
+  unfold TopoB.role at h
+  by_cases hn : n < t.roles.length
+  · exact hn
+  · have : t.roles[n]? = none := List.getElem?_eq_none (by omega)
+    simp [List.getD, this] at h
+
+theorem deniesClass_mono {C D : Packet → Prop} (a : Acl) (h : DeniesClass D a) (hcd : ∀ p, C p → D p) : DeniesClass C a :=
+  fun p hp => h p (hcd p hp)
+
+theorem fwGuards_sound (s : Node W) (h : fwGuards t.ba s = true) : FwGuardP t (fwD t s) s.ifaces s.acls := by
+  intro e he
+  simp only [fwGuards, List.all_cons, List.all_nil, Bool.and_true, Bool.and_eq_true] at h
+  cases hd : fwD t s e
+  · simp only [Bool.false_eq_true, if_false]
+    unfold fwD at hd
+    rcases he with rfl | rfl | rfl
+    · have h1 := h.1
+      simp only [hd, Bool.false_or] at h1
+      intro a ha
+      have hmem : a ∈ t.ba := by simpa using ha
+      exact C06_denyDstCheck_sound _ _ (List.all_eq_true.mp h1 a hmem)
+    · have h1 := h.2.1
+      simp only [hd, Bool.false_or] at h1
+      intro a ha
+      have hmem : a ∈ t.ba := by simpa using ha
+      exact C06_denyDstCheck_sound _ _ (List.all_eq_true.mp h1 a hmem)
+    · have h1 := h.2.2
+      simp only [hd, Bool.false_or, Bool.and_eq_true] at h1
+      exact ⟨C06_denyDstCheck_sound _ _ h1.1, C06_denyDstCheck_sound _ _ h1.2⟩
+  · simp only [if_true]
+    exact C06_denyDstCheck_sound _ _ hd
+
+theorem fwGuardP_bump (d : FwEntry → Bool) (ifs : List Iface) (acls : AclId → Acl) (a : AclId) (q : Packet)
+    (h : FwGuardP t d ifs acls) : FwGuardP t d ifs (fun b => if b = a then (isPermitted (acls a) q).2.2 else acls b) := by
+  have key : ∀ (C : Packet → Prop) (b : AclId), DeniesClass C (acls b) →
+      DeniesClass C ((fun b => if b = a then (isPermitted (acls a) q).2.2 else acls b) b) := by
+    intro C b hb
+    by_cases hba : b = a
+    · subst hba; simp only [if_true]; exact deniesClass_stable _ _ _ hb
+    · simp only [hba, if_false]; exact hb
+  intro e he
+  have h1 := h e he
+  cases hd : d e
+  · simp only [hd, Bool.false_eq_true, if_false] at h1 ⊢
+    rcases he with rfl | rfl | rfl
+    · exact fun a' ha' => key _ _ (h1 a' ha')
+    · exact fun a' ha' => key _ _ (h1 a' ha')
+    · exact ⟨key _ _ h1.1, key _ _ h1.2⟩
+  · simp only [hd, if_true] at h1 ⊢
+    exact key _ _ h1
+
+end reach
+
+/-! ### per-role closure from the certificate -/
+
+section reach2
+variable (t : TopoB) (apps : Nat → HostApp W) (tbls : Nat → SwitchTbl W) (rtrs : Nat → RtrOpaque W) (bases : Nat → Soft W)
+  (hFree : Nat → Node W → Nat → Frame → Script W)
+
+theorem arpOKB_ttl (f : Frame) (x : Nat) (h : ArpOKB t f) : ArpOKB t { f with ttl := x } := by
+  intro hs
+  rw [subjectToAcl_ttl] at hs
+  exact h hs
+
+theorem arpOKB_nonexempt (f : Frame) (h : subjectToAcl f ≠ some false) : ArpOKB t f := fun hs => absurd hs h
+
+theorem arpRequest_exempt (o : Iface) (a : Ip) : subjectToAcl (arpRequestFrame o a) = some false := by
+  simp [subjectToAcl, arpRequestFrame]
+
+/-- an ARP request built on a clean, bound interface for a target outside `ba` is in the class everywhere -/
+theorem clB_arpRequest (o : Iface) (a : Ip) (m r : Nat) (hclean : t.ba.contains o.ip = false)
+    (hbind : bindOK t.rtrIfs o.mac o.ip = true) (ha : t.inB m = true → t.ba.contains a = false) :
+    ClB t m r (arpRequestFrame o a) :=
+  ⟨hclean, fun _ => ⟨fun _ => ⟨rfl, hbind, hclean⟩, fun h => by simp [arpRequestFrame] at h⟩, ha⟩
+
+theorem hostClosedB (σ : St Nat (Node W)) (n : Nat) (hr : t.role n = .host) (hcn : certifyNodeB t n (σ n) = true) :
+    (σ n).kind = .host ∧ HostClosed (sysB t apps tbls rtrs bases hFree) (fun _ => true) (ClB t) n (σ n).ifaces := by
+  simp only [certifyNodeB, hr, Bool.and_eq_true, beq_iff_eq, Bool.not_eq_true'] at hcn
+  obtain ⟨⟨⟨hk, _⟩, hout⟩, hall⟩ := hcn
+  have hfacts : ∀ (q : Nat) (i : Iface), (σ n).ifaces[q]? = some i → t.ba.contains i.ip = false ∧ bindOK t.rtrIfs i.mac i.ip = true := by
+    intro q i hi
+    have := List.all_eq_true.mp hall i (List.mem_of_getElem? hi)
+    simpa [ifaceClean] using this
+  have hnoB : ∀ q m r, t.wire n q = some (m, r) → t.inB m = true → False := by
+    intro q m r hw hm
+    have := outside_wire t n q m r hout hw
+    rw [hm] at this; cases this
+  refine ⟨hk, ⟨fun _ _ _ _ => rfl, ?_, ?_⟩⟩
+  · intro q i g m r hi hw
+    obtain ⟨hclean, hbind⟩ := hfacts q i hi
+    refine ⟨by rw [stampOn_srcIp]; exact hclean, ?_, fun hm => (hnoB q m r hw hm).elim⟩
+    intro hsub
+    have harp := exempt_arp _ hsub
+    by_cases hg : g.arp = true
+    · have he : stampOn i g = arpRequestFrame i g.arpTgt := by simp [stampOn, hg]
+      rw [he]
+      exact ⟨fun _ => ⟨rfl, hbind, hclean⟩, fun h => by simp [arpRequestFrame] at h⟩
+    · have he : (stampOn i g).arp = g.arp := by simp [stampOn, hg]
+      rw [he] at harp; exact absurd harp hg
+  · intro p f x q o i m r _ hcl hsub hreq ho hw
+    obtain ⟨hclean, _⟩ := hfacts q o ho
+    refine ⟨hclean, ?_, fun hm => (hnoB q m r hw hm).elim⟩
+    intro _
+    exact ⟨fun h => by simp [arpReplyFrame] at h, fun _ => ((hcl.2.1 hsub).1 hreq).2.1⟩
+
+theorem switchClosedB (σ : St Nat (Node W)) (n : Nat) (hr : t.role n = .switch) (hcn : certifyNodeB t n (σ n) = true) :
+    (σ n).kind = .switch ∧ SwitchClosed (sysB t apps tbls rtrs bases hFree) (fun _ => true) (ClB t) n := by
+  simp only [certifyNodeB, hr, Bool.and_eq_true, beq_iff_eq, Bool.or_eq_true] at hcn
+  obtain ⟨hk, hz⟩ := hcn
+  refine ⟨hk, ⟨fun _ _ _ _ => rfl, ?_⟩⟩
+  intro p f x q m r _ hcl hw
+  refine ⟨hcl.1, arpOKB_ttl t f x hcl.2.1, ?_⟩
+  intro hm
+  rcases hz with hz | hz
+  · exact hcl.2.2 hz
+  · have := outside_wire t n q m r hz hw; rw [hm] at this; cases this
+
+/-- closure of `ClB` under what a router / firewall with clean, registered interfaces emits of its own accord -/
+theorem rtrClosedB (ifs : List Iface) (n : Nat)
+    (hhops : ∀ h, t.hops.contains h = true → t.ba.contains h = false)
+    (hall : ifs.all (fun i => ifaceClean t i && t.rtrIfs.contains (i.mac, i.ip) && bindOK t.rtrIfs i.mac i.ip) = true) :
+    RtrClosed (sysB t apps tbls rtrs bases hFree) (fun _ => true) (ClB t) n ifs t.hops := by
+  have hfacts : ∀ (q : Nat) (i : Iface), ifs[q]? = some i → t.ba.contains i.ip = false ∧ bindOK t.rtrIfs i.mac i.ip = true := by
+    intro q i hi
+    have := List.all_eq_true.mp hall i (List.mem_of_getElem? hi)
+    simp only [ifaceClean, Bool.and_eq_true, Bool.not_eq_true'] at this
+    exact ⟨this.1.1, this.2⟩
+  refine ⟨fun _ _ _ _ => rfl, ?_, ?_, ?_⟩
+  · intro p f q o a m r _ hcl ho _ ha
+    obtain ⟨hclean, hbind⟩ := hfacts q o ho
+    refine clB_arpRequest t o a m r hclean hbind (fun _ => ?_)
+    rcases ha with rfl | ha
+    · exact hcl.1
+    · exact hhops a ha
+  · intro p f g q o m r _ hcl ho _ hg
+    obtain ⟨hclean, _⟩ := hfacts q o ho
+    refine ⟨hclean, arpOKB_nonexempt t _ ?_, fun _ => hcl.1⟩
+    intro hs
+    have := exempt_arp _ hs
+    simp [hg] at this
+  · intro p f x q o i m r _ hcl hsub hreq ho _
+    obtain ⟨hclean, _⟩ := hfacts q o ho
+    refine ⟨hclean, ?_, fun _ => ((hcl.2.1 hsub).1 hreq).2.2⟩
+    intro _
+    exact ⟨fun h => by simp [arpReplyFrame] at h, fun _ => ((hcl.2.1 hsub).1 hreq).2.1⟩
+
+/-- a frame addressed to the arrival interface's MAC, not a broadcast, not for the device: it is not a genuine ARP packet -/
+theorem not_exempt_of_unicast (ifs : List Iface) (p : Nat) (i : Iface) (f : Frame) (hi : ifs[p]? = some i)
+    (hall : ifs.all (fun i => ifaceClean t i && t.rtrIfs.contains (i.mac, i.ip) && bindOK t.rtrIfs i.mac i.ip) = true)
+    (hok : ArpOKB t f) (hm : f.dstMac = i.mac) (hb : f.dstMac ≠ bcastMac) (hown : ownIpL ifs f.pkt.dstIp = false) :
+    subjectToAcl f ≠ some false := by
+  intro hs
+  obtain ⟨h1, h2⟩ := hok hs
+  cases hq : f.arpReq
+  · have hbnd := h2 hq
+    rw [hm] at hbnd
+    have hmem := List.all_eq_true.mp hall i (List.mem_of_getElem? hi)
+    simp only [Bool.and_eq_true] at hmem
+    have := bindOK_mem _ _ _ _ hbnd hmem.1.2
+    have hany : ownIpL ifs f.pkt.dstIp = true := by
+      simp only [ownIpL, List.any_eq_true]
+      exact ⟨i, List.mem_of_getElem? hi, by simp [this]⟩
+    rw [hown] at hany; cases hany
+  · exact hb (h1 hq).1
+
+/-- forwarding closure: a forwarded frame and the ARP request for its destination are in the class provided the frame is not
+addressed to a protected host whenever it is sent into the zone -/
+theorem fwdOKB (ifs : List Iface) (n : Nat) (f : Frame)
+    (hall : ifs.all (fun i => ifaceClean t i && t.rtrIfs.contains (i.mac, i.ip) && bindOK t.rtrIfs i.mac i.ip) = true)
+    (hsrc : t.ba.contains f.pkt.srcIp = false) (hne : subjectToAcl f ≠ some false)
+    (hdst : ∀ q m r, t.wire n q = some (m, r) → t.inB m = true → t.ba.contains f.pkt.dstIp = false) :
+    FwdOK (sysB t apps tbls rtrs bases hFree) (ClB t) n ifs f := by
+  intro q o m r ho hw
+  have := List.all_eq_true.mp hall o (List.mem_of_getElem? ho)
+  simp only [ifaceClean, Bool.and_eq_true, Bool.not_eq_true'] at this
+  refine ⟨fun x dm => ⟨hsrc, arpOKB_nonexempt t _ hne, hdst q m r hw⟩, ?_⟩
+  exact clB_arpRequest t o _ m r this.1.1 this.2 (hdst q m r hw)
+
+end reach2
+
+/-! ### the theorem -/
+
+section reach3
+variable (t : TopoB) (apps : Nat → HostApp W) (tbls : Nat → SwitchTbl W) (rtrs : Nat → RtrOpaque W) (bases : Nat → Soft W)
+  (hFree : Nat → Node W → Nat → Frame → Script W)
+
+/-- **C06, reachability form: a frame addressed to a protected host never reaches it, whatever else circulates.**
+If `certifyB` accepts the network in state `σ` — every router / firewall with a wire into the protected zone denies every
+packet addressed to a protected address (router: its list; firewall: the first list of the arrival port, or the list of the
+second entry point the code selects for that address) — then for ALL software of the attacker-side hosts, ALL handlers of
+`free` attacker-side nodes that do not forge a protected source address or an ARP payload, ALL opaque parts of every router
+and firewall (ARP caches, route tables, WHERE they forward and answer), ALL switch tables and ALL software of the protected
+hosts, any sequence of operations on the attacker side leaves the state of every protected host exactly as it was.
+Frames to other destinations do cross the guards, the guards' own ARP requests and replies do enter the zone
+(F-C06-dmz-lookup is inside the model), and the other devices of the zone do change: no hypothesis forbids it. -/
+theorem C06_certifiedB_unchanged (σ : St Nat (Node W)) (hc : certifyB t σ = true)
+    (hfree : ∀ n, t.role n = .free → ∀ s p f, ClB t n p f →
+      EmitsCl (sysB t apps tbls rtrs bases hFree) (ClB t) n (hFree n s p f))
+    (ops : List (Nat × Op Nat Nat Frame (Node W)))
+    (hops : ∀ o ∈ ops,
+      (t.role o.2.node = .host ∧ ∃ a : Node W → SwScript W, o.2.script = fun s => hostOp s (a s)) ∨
+      (t.role o.2.node = .free ∧ ∀ s, EmitsCl (sysB t apps tbls rtrs bases hFree) (ClB t) o.2.node (o.2.script s))) :
+    ∀ b, t.role b = .deaf → runOps (sysB t apps tbls rtrs bases hFree) σ ops b = σ b := by
+  obtain ⟨hhops, hnode⟩ := certifyB_parts t σ hc
+  have hcn : ∀ n, t.role n ≠ .free → certifyNodeB t n (σ n) = true := fun n h => hnode n (role_lt t n h)
+  have hhost : ∀ n, t.role n = .host → ∀ s, invB t σ n s ↔ (s.kind = .host ∧ s.ifaces = (σ n).ifaces) := by
+    intro n hr s; simp [invB, hr]
+  have hswitch : ∀ n, t.role n = .switch → ∀ s, invB t σ n s ↔ s.kind = .switch := by
+    intro n hr s; simp [invB, hr]
+  have hallR : ∀ n, (t.role n = .rtr ∨ t.role n = .fw) →
+      (σ n).ifaces.all (fun i => ifaceClean t i && t.rtrIfs.contains (i.mac, i.ip) && bindOK t.rtrIfs i.mac i.ip) = true := by
+    intro n hr
+    rcases hr with hr | hr
+    · have := hcn n (by rw [hr]; simp)
+      simp only [certifyNodeB, hr, Bool.and_eq_true] at this
+      exact this.1.2
+    · have := hcn n (by rw [hr]; simp)
+      simp only [certifyNodeB, hr, Bool.and_eq_true] at this
+      exact this.1.2
+  -- a frame forwarded into the zone by node `n` is not addressed to a protected host
+  have hdstOf : ∀ n p f, ClB t n p f → (needGuard t n = true → t.ba.contains f.pkt.dstIp = false) →
+      ∀ q m r, t.wire n q = some (m, r) → t.inB m = true → t.ba.contains f.pkt.dstIp = false := by
+    intro n p f hcl hg q m r hw hm
+    rcases intoB_cases t n q m r hw hm with h | h
+    · exact hcl.2.2 h
+    · exact hg h
+  have cut : IsCut (sysB t apps tbls rtrs bases hFree) (fun _ => true) (FromSideC (sysB t apps tbls rtrs bases hFree) (fun _ => true) (ClB t))
+      (invB t σ) := by
+    constructor
+    intro n s p f _ hI hK
+    cases hr : t.role n with
+    | free =>
+      have hh : (sysB t apps tbls rtrs bases hFree).handler n = hFree n := by simp [sysB, hr]
+      rw [hh]
+      exact safe_of_interior_emits _ _ (ClB t) _ n rfl (fun s => by simp [invB, hr]) (fun _ _ _ _ => rfl) _
+        (hfree n hr s p f hK.2)
+    | host =>
+      have hh : (sysB t apps tbls rtrs bases hFree).handler n = nodeRx (hostStd (apps n)) := by simp [sysB, softB, hr]
+      rw [hh]
+      exact C06_host_safe _ _ (ClB t) _ n (σ n).ifaces rfl (hhost n hr)
+        (hostClosedB t apps tbls rtrs bases hFree σ n hr (hcn n (by rw [hr]; simp))).2 (apps n) s p f hI hK.1 hK.2
+    | switch =>
+      have hh : (sysB t apps tbls rtrs bases hFree).handler n = nodeRx (switchStd (tbls n)) := by simp [sysB, softB, hr]
+      rw [hh]
+      exact C06_switch_safe _ _ (ClB t) _ n rfl (hswitch n hr)
+        (switchClosedB t apps tbls rtrs bases hFree σ n hr (hcn n (by rw [hr]; simp))).2 (tbls n) s p f hI hK.1 hK.2
+    | rtr =>
+      have hh : (sysB t apps tbls rtrs bases hFree).handler n = nodeRx (rtrStd t.hops (rtrs n)) := by simp [sysB, softB, hr]
+      rw [hh]
+      have hall := hallR n (Or.inl hr)
+      refine C06_rtr_safe _ _ (ClB t) _ n (σ n).ifaces t.hops
+        (fun a => needGuard t n = true → DeniesClass (ForB t.ba) a)
+        (fun a q h hg => deniesClass_stable _ _ _ (h hg))
+        (fun s => by simp [invB, hr]) rfl (rtrClosedB t apps tbls rtrs bases hFree _ n hhops hall) ?_ (rtrs n) s p f hI hK.1 hK.2
+      intro p' i f' _ hcl hi hm hb hown hv
+      have hne := not_exempt_of_unicast t _ p' i f' hi hall hcl.2.1 hm hb hown
+      refine fwdOKB t apps tbls rtrs bases hFree _ n f' hall hcl.1 hne (hdstOf n p' f' hcl ?_)
+      intro hg
+      rcases hv with hv | ⟨a, ha, hp⟩
+      · exact absurd hv hne
+      · cases hd : t.ba.contains f'.pkt.dstIp
+        · rfl
+        · have := ha hg f'.pkt hd
+          rw [hp] at this; cases this
+    | fw =>
+      have hh : (sysB t apps tbls rtrs bases hFree).handler n = nodeRx (rtrStd t.hops (rtrs n)) := by simp [sysB, softB, hr]
+      rw [hh]
+      have hall := hallR n (Or.inr hr)
+      refine C06_fw_safe _ _ (ClB t) _ n (σ n).ifaces t.hops
+        (fun acls => needGuard t n = true → FwGuardP t (fwD t (σ n)) (σ n).ifaces acls)
+        (fun acls a q h hg => fwGuardP_bump t _ _ acls a q (h hg))
+        (fun s => by simp [invB, hr]) rfl (rtrClosedB t apps tbls rtrs bases hFree _ n hhops hall) ?_ (rtrs n) s p f hI hK.1 hK.2
+      intro p' i f' e _ hcl hi hpe hm hb hown hv
+      have hne := not_exempt_of_unicast t _ p' i f' hi hall hcl.2.1 hm hb hown
+      refine fwdOKB t apps tbls rtrs bases hFree _ n f' hall hcl.1 hne (hdstOf n p' f' hcl ?_)
+      intro hg
+      obtain ⟨a1, a2, e2, g1, p1, g2, p2, hsel⟩ := hv
+      cases hd : t.ba.contains f'.pkt.dstIp
+      · rfl
+      · exfalso
+        have he := portEntry_first p' e hpe
+        have h1 := g1 hg e he
+        have h2 := g2 hg e he
+        cases hde : fwD t (σ n) e
+        · simp only [hde, Bool.false_eq_true, if_false] at h2
+          have hself : ForB [f'.pkt.dstIp] f'.pkt := by simp [ForB]
+          rcases he with rfl | rfl | rfl
+          · simp only [SelOK] at hsel
+            have := h2 _ hd f'.pkt hself
+            rw [← hsel, p2] at this; cases this
+          · simp only [SelOK] at hsel
+            have := h2 _ hd f'.pkt hself
+            rw [← hsel, p2] at this; cases this
+          · simp only [SelOK] at hsel
+            rcases hsel with rfl | rfl
+            · have := h2.1 f'.pkt hd
+              have e1 : entryAcl .extOut = AclId.extOut := rfl
+              rw [e1, this] at p2; cases p2
+            · have := h2.2 f'.pkt hd
+              have e1 : entryAcl .intIn = AclId.intIn := rfl
+              rw [e1, this] at p2; cases p2
+        · simp only [hde, if_true] at h1
+          have := h1 f'.pkt hd
+          rw [p1] at this; cases this
+    | deaf =>
+      have hh : (sysB t apps tbls rtrs bases hFree).handler n = nodeRx (bases n) := by simp [sysB, softB, hr]
+      rw [hh]
+      have hs0 : s = σ n := by simpa [invB, hr] using hI
+      have hcd := hcn n (by rw [hr]; simp)
+      simp only [certifyNodeB, hr, Bool.and_eq_true, beq_iff_eq] at hcd
+      obtain ⟨⟨hk, hin⟩, hall⟩ := hcd
+      have hdst := hK.2.2.2 hin
+      rw [hs0, C06_host_deaf (bases n) (σ n) p f hk ?_]
+      · exact SafeAct.done (by simp [invB, hr])
+      · intro i hi
+        have := List.all_eq_true.mp hall i hi
+        simp only [Bool.and_eq_true] at this
+        constructor
+        · intro h; rw [h, this.1] at hdst; cases hdst
+        · intro h; rw [h, this.2] at hdst; cases hdst
+  have hσ : ∀ n, (fun _ : Nat => true) n = true → invB t σ n (σ n) := by
+    intro n _
+    cases hr : t.role n with
+    | free => simp [invB, hr]
+    | host => exact (hhost n hr _).mpr ⟨(hostClosedB t apps tbls rtrs bases hFree σ n hr (hcn n (by rw [hr]; simp))).1, rfl⟩
+    | switch => exact (hswitch n hr _).mpr (switchClosedB t apps tbls rtrs bases hFree σ n hr (hcn n (by rw [hr]; simp))).1
+    | rtr =>
+      have hcd := hcn n (by rw [hr]; simp)
+      simp only [certifyNodeB, hr, Bool.and_eq_true, beq_iff_eq, Bool.or_eq_true] at hcd
+      simp only [invB, hr]
+      refine ⟨hcd.1.1, trivial, fun hg => ?_⟩
+      simp only [needGuard, Bool.not_eq_true', Bool.or_eq_false_iff] at hg
+      rcases hcd.2 with (h | h) | h
+      · rw [hg.1] at h; cases h
+      · rw [hg.2] at h; cases h
+      · exact C06_denyDstCheck_sound _ _ h
+    | fw =>
+      have hcd := hcn n (by rw [hr]; simp)
+      simp only [certifyNodeB, hr, Bool.and_eq_true, beq_iff_eq, Bool.or_eq_true] at hcd
+      simp only [invB, hr]
+      refine ⟨hcd.1.1, trivial, fun hg => ?_⟩
+      simp only [needGuard, Bool.not_eq_true', Bool.or_eq_false_iff] at hg
+      rcases hcd.2 with (h | h) | h
+      · rw [hg.1] at h; cases h
+      · rw [hg.2] at h; cases h
+      · exact fwGuards_sound t (σ n) h
+    | deaf => simp [invB, hr]
+  have hops' : ∀ o ∈ ops, SafeOp (sysB t apps tbls rtrs bases hFree) (fun _ => true)
+      (FromSideC (sysB t apps tbls rtrs bases hFree) (fun _ => true) (ClB t)) (invB t σ) o.2 := by
+    intro o ho
+    refine ⟨rfl, ?_⟩
+    intro s hs
+    rcases hops o ho with ⟨hr, a, ha⟩ | ⟨hr, he⟩
+    · rw [ha]
+      exact C06_hostOp_safe _ _ (ClB t) _ o.2.node (σ o.2.node).ifaces rfl (hhost _ hr)
+        (hostClosedB t apps tbls rtrs bases hFree σ _ hr (hcn _ (by rw [hr]; simp))).2 a s hs
+    · exact safe_of_interior_emits _ _ (ClB t) _ o.2.node rfl (fun s => by simp [invB, hr]) (fun _ _ _ _ => rfl) _ (he s)
+  intro b hb
+  have := (runOps_good _ _ _ _ cut ops σ hops' hσ).1 b rfl
+  simpa [invB, hb] using this
+
+end reach3
 
 end Primaite.Filter
